@@ -198,7 +198,8 @@ def join_oracle(lrows, rrows, lkey, rkey, lattr, rattr, tokspec, measure,
 
 
 def filter_oracle(lrows, rrows, lkey, rkey, lattr, rattr, tokspec, tok_mode,
-                  fkind, measure, threshold, op, allow_empty, allow_missing):
+                  fkind, measure, threshold, op, allow_empty, allow_missing,
+                  partial=False):
     """Oracle for filter_tables / filter_candset / filter_pair of the safe
     filters (C04, C08, C09) and of the exact OverlapFilter (C06).
 
@@ -213,21 +214,27 @@ def filter_oracle(lrows, rrows, lkey, rkey, lattr, rattr, tokspec, tok_mode,
             k = (lr[lkey], rr[rkey])
             v, kind = filter_pair_verdict(
                 lr[lattr], rr[rattr], ltoks[i], rtoks[j], fkind, measure,
-                threshold, op, allow_empty, allow_missing)
+                threshold, op, allow_empty, allow_missing, partial)
             sc = None
             if fkind == 'OverlapFilter':
                 if kind == 'missing':
                     sc = 'nan'
-                elif kind == 'normal':
+                elif kind == 'normal' and not partial:
                     sc = [len(set(ltoks[i]) & set(rtoks[j]))]
             po.set(k, v, sc, kind)
     return po
 
 
 def filter_pair_verdict(ls, rs, lt, rt, fkind, measure, threshold, op,
-                        allow_empty, allow_missing):
+                        allow_empty, allow_missing, partial=False):
+    """partial: the filter's tokenizer is not in the mode C04 assumes (set
+    mode for set measures, bag mode for edit distance).  Then only what does
+    not depend on the mode is judged: missing values (C08) and pairs of two
+    token-less values (C09); everything else is MAY."""
     if lt is None or rt is None:
         return (MUST if allow_missing else NOT), 'missing'
+    if partial and (lt or rt):
+        return MAY, ('one_empty' if (not lt or not rt) else 'normal')
     if fkind == 'OverlapFilter':
         # exact: kept iff both strings non-empty and overlap op size
         if not lt or not rt:
